@@ -268,6 +268,36 @@ def parent_and_name_cases(text, doc, res):
             if n >= 1:
                 res.nontrivial()
             res.label("parent:checked")
+        # chained climbs: [parent(m)][parent(n)] is the (m+n)-th ancestor
+        for m, n in ((1, 1), (1, 2), (2, 1)):
+            if depth < 1:
+                break
+            ptext = base.rstrip("/") + "[parent(%d)][parent(%d)]" % (m, n)
+            res.evaluations += 1
+            case = {"doc": text, "path": ptext}
+            try:
+                got = list(proc.get_nodes(real.ypath(ptext), mustexist=True))
+                outcome = "ok"
+            except YAMLPathException:
+                outcome = "error"
+            except Exception as exc:
+                res.fail({"clause": "parent-raises-yamlpath-error",
+                          "exc": type(exc).__name__}, case, str(exc))
+                continue
+            if m + n > depth:
+                if outcome != "error":
+                    res.fail({"clause": "parent-above-root-refused",
+                              "chained": True}, case,
+                             "got %r" % ([g.node for g in got],))
+                continue
+            target = by_path[path[:depth - m - n]][0]
+            if outcome != "ok" or len(got) != 1 or got[0].node is not target:
+                res.fail({"clause": "parent-nth-ancestor", "n": "chained"},
+                         case, "expected the node at depth %d, got %r" % (
+                             depth - m - n, [g.node for g in got]
+                             if outcome == "ok" else "YAMLPathException"))
+            res.nontrivial()
+            res.label("parent:chained-checked")
         if segs:
             ptext = base + "[name()]"
             res.evaluations += 1
